@@ -132,7 +132,7 @@ class GraphModel(Analysis):
             self.ev(ip, 'MUT', node, st, fr, obj=fterm[1][1], attr=fterm[1][2], how=fterm[2], args=args,
                     conds=conds, depth=fr.depth)
             return [(st.forget(lambda s: T.is_attr(s, fterm[1][2])), T.NONE)]
-        if fterm[0] == 'attr' and fterm[2] in ('requires', 'sanitize', 'check_cycles', 'update', 'add',
+        if fterm[0] == 'attr' and fterm[2] in ('requires', 'sanitize', 'check_cycles', 'update', 'add', 'keep_only', 'remove',
                                                '_add_one_requirement'):
             self.ev(ip, 'CALL', node, st, fr, recv=fterm[1], meth=fterm[2], args=args, kws=kws,
                     depth=fr.depth)
